@@ -28,10 +28,16 @@ structure Hist where
   cfg : Cfg := {}
   srv : Server := {}
   steps : Array IStep := #[]
+  vsteps : Array IStep := #[]      -- what the view monitor is fed (it survives concurrent blocks no serial order explains)
   extras : Array (Nat × String) := #[]
   nEvents : Nat := 0
   nDeliv : Nat := 0
   diff : Option String := none     -- first correspondence difference
+  blind : Bool := false            -- a concurrent block could not be explained: the monitors' reference picture is lost
+  concViol : Array (String × String × String) := #[]   -- (property, cause, detail) found while judging concurrent blocks
+  concBlocks : Nat := 0
+  concOdd : Nat := 0               -- blocks whose outcome no serial order of the requests explains
+  note : Option String := none
 deriving Inhabited
 
 def parseHeader (toks : List String) : Nat × Cfg :=
@@ -85,6 +91,7 @@ def evTopic : IEv → String
   | .tick _ => "tick"
   | .disconnect _ => "disconnect"
   | .drain => "drain"
+  | .conc _ => "conc"
 
 /-- translate a harness event into a model event, resolving which queued message was consumed -/
 def toModelEvent (srv : Server) : IEv → Except String Event
@@ -93,6 +100,7 @@ def toModelEvent (srv : Server) : IEv → Except String Event
   | .tick s => .ok (.tick s)
   | .disconnect c => .ok (.disconnect c)
   | .drain => .ok .drain
+  | .conc _ => .error "a concurrent block is not one model event"
   | .handle c none hint =>
     match srv.findConn c with
     | none => .ok (.handle c 0 hint)
@@ -126,8 +134,9 @@ def processBlock (h : Hist) (b : Block) (outcome : Outcome) : Hist :=
   match parseEvent b.ev with
   | none => { h with diff := h.diff <|> some s!"event={evNo} kind=parse topic=? :: cannot parse event {b.ev}" }
   | some iev =>
-    let h := { h with steps := h.steps.push ⟨iev, b.ds, outcome, b.sessions, b.gauge, b.extra⟩ }
-    if h.diff.isSome then h else
+    let h := { h with vsteps := h.vsteps.push ⟨iev, b.ds, outcome, b.sessions, b.gauge, b.extra⟩ }
+    let h := if h.blind then h else { h with steps := h.steps.push ⟨iev, b.ds, outcome, b.sessions, b.gauge, b.extra⟩ }
+    if h.diff.isSome || h.blind then h else
     let topic := evTopic iev
     if !b.bad.isEmpty then
       { h with diff := some s!"event={evNo} kind=parse topic={topic} :: unparseable delivery {b.bad}" }
@@ -150,12 +159,136 @@ def processBlock (h : Hist) (b : Block) (outcome : Outcome) : Hist :=
           { h with diff := some s!"event={evNo} kind=gauge topic={topic} :: model {srv'.gauge} implementation {b.gauge}" }
         else h
 
+/-! ### concurrent blocks: the implementation must behave like some serial order of the same requests on the model -/
+
+def splitBar (toks : List String) : List (List String) :=
+  toks.foldl (fun (acc : List (List String)) t =>
+    if t == "|" then acc ++ [[]] else
+    match acc.reverse with
+    | last :: rest => rest.reverse ++ [last ++ [t]]
+    | [] => [[t]]) [[]]
+
+/-- `conc n sched=.. | c req.. | c req..`: the tasks (connection, consumed request) -/
+def parseConc (toks : List String) : Option (List (Nat × Option Req)) :=
+  match splitBar toks with
+  | _ :: tasks =>
+    tasks.mapM fun t =>
+      match t with
+      | [c, "none"] => c.toNat?.map fun c => (c, none)
+      | c :: rest => do
+        let c ← c.toNat?
+        let r ← parseAll req rest
+        pure (c, some r)
+      | [] => none
+  | [] => none
+
+/-- the serial orders of a block of at most three requests -/
+def perms3 {α : Type} : List α → List (List α)
+  | [a, b] => [[a, b], [b, a]]
+  | [a, b, c] => [[a, b, c], [a, c, b], [b, a, c], [b, c, a], [c, a, b], [c, b, a]]
+  | l => [l]
+
+/-- the hint a task's own deliveries carry (session id created, ping id issued) -/
+def hintOf (c : Nat) (ds : List Delivery) : Nat :=
+  ((inboxOf c ds).findSome? fun o => match o with
+    | .joinResp _ sid _ _ => some sid
+    | .pingReq id => some id
+    | _ => none).getD 0
+
+/-- run the tasks serially in the given order on the model -/
+def serialRun (cfg : Cfg) (srv : Server) (ds : List Delivery) (order : List (Nat × Option Req)) :
+    Except String (Server × List (IEv × List Delivery × Outcome)) :=
+  order.foldlM (fun (acc : Server × List (IEv × List Delivery × Outcome)) (t : Nat × Option Req) =>
+    let (srv, steps) := acc
+    let iev := IEv.handle t.1 t.2 (hintOf t.1 ds)
+    match toModelEvent srv iev with
+    | .error m => .error m
+    | .ok ev =>
+      let (srv', out, o) := step cfg srv ev
+      .ok (srv', steps ++ [(iev, out, o)])) (srv, [])
+
+def outcomeTok : Outcome → String
+  | .ok => "ok" | .connError => "connerr" | .panic _ => "panic"
+
+def processConc (h : Hist) (b : Block) (otoks : List String) : Hist :=
+  let evNo := h.nEvents
+  let h := { h with nEvents := h.nEvents + 1, nDeliv := h.nDeliv + b.ds.length, concBlocks := h.concBlocks + 1 }
+  if h.diff.isSome then h else
+  match otoks with
+  | "deadlock" :: rest =>
+    { h with blind := true, diff := some s!"event={evNo} kind=deadlock topic=conc :: {b.ev} outcomes {rest}",
+             concViol := h.concViol.push ("C09", "deadlock", (" ".intercalate b.ev) ++ " :: tasks " ++ " ".intercalate rest) }
+  | _ =>
+  match parseConc b.ev with
+  | none => { h with diff := some s!"event={evNo} kind=parse topic=conc :: cannot parse {b.ev}" }
+  | some tasks =>
+    let implOut := ((otoks.getD 1 "").splitOn ",")
+    if implOut.any (·.startsWith "panic") then
+      { h with diff := some s!"event={evNo} kind=outcome topic=conc :: a handler panicked {implOut}",
+               concViol := h.concViol.push ("C08", "handler-panic", " ".intercalate b.ev) }
+    else
+    let tagged : List ((Nat × Option Req) × String) := tasks.zip implOut
+    -- every serial order of the same requests
+    let tries : List (List ((Nat × Option Req) × String) × Option (Server × List (IEv × List Delivery × Outcome)) × String) :=
+      (perms3 tagged).map fun order =>
+      match serialRun h.cfg h.srv b.ds (order.map Prod.fst) with
+      | .error m => (order, none, m)
+      | .ok (srv', steps) =>
+        let ds := steps.flatMap fun (st : IEv × List Delivery × Outcome) => st.2.1
+        let outsOk := (order.zip steps).all fun (x : ((Nat × Option Req) × String) × (IEv × List Delivery × Outcome)) => outcomeTok x.2.2.2 == x.1.2
+        let ms := sortNat (srv'.sessions.map fun (x : Session) => x.id)
+        if !outsOk then (order, none, "outcomes differ")
+        else match diffDeliveries ds b.ds with
+          | some c => (order, none, s!"conn {c}: serial model {reprStr (inboxOf c ds)} implementation {reprStr (inboxOf c b.ds)}")
+          | none =>
+            if ms != b.sessions then (order, none, s!"sessions {ms} vs {b.sessions}")
+            else if srv'.gauge != b.gauge then (order, none, s!"gauge {srv'.gauge} vs {b.gauge}")
+            else (order, some (srv', steps), "")
+    match tries.findSome? fun t => t.2.1 with
+    | some (srv', steps) =>
+      -- continue as if the requests had been handled in that order
+      -- the registry after each step is the model's (the implementation's is known for the end of the block only)
+      let (_, h) := steps.foldl (fun (acc : Server × Hist) (st : IEv × List Delivery × Outcome) =>
+        let (cur, h) := acc
+        match toModelEvent cur st.1 with
+        | .ok ev =>
+          let nxt := (step h.cfg cur ev).1
+          let is : IStep := ⟨st.1, st.2.1, st.2.2, sortNat (nxt.sessions.map fun (x : Session) => x.id), nxt.gauge, []⟩
+          (nxt, { h with steps := h.steps.push is, vsteps := h.vsteps.push is })
+        | .error _ => (cur, h)) (h.srv, h)
+      { h with srv := srv' }
+    | none =>
+      let why := "; ".intercalate (tries.map fun t => s!"order {t.1.map fun (x : (Nat × Option Req) × String) => x.1.1}: {t.2.2}")
+      -- no serial order explains the outcome.  That alone violates nothing: the properties ask, under concurrency, for
+      -- unique ids, convergent views and a consistent registry at the next quiescent moment.  Ids are checked here, the
+      -- views by the view monitor (which is fed the block as it is); the other monitors lose their reference picture.
+      let answers := b.ds.map Prod.snd
+      let pids := answers.filterMap fun o => match o with | .joinResp _ sid _ pid => some (sid, pid) | _ => none
+      let eids := answers.filterMap fun o => match o with | .entityAddResp _ e => some e | _ => none
+      let aids := answers.filterMap fun o => match o with | .assetAddResp _ a => some a | _ => none
+      let dup (l : List Nat) : Bool := l.eraseDups.length != l.length
+      let dupP : Bool := pids.eraseDups.length != pids.length
+      let viol := h.concViol
+      let viol := if dupP then viol.push ("C10", "participant-id-issued-twice", flatS s!"{" ".intercalate b.ev} :: {pids}") else viol
+      -- entity and asset ids are per session; a block that touches two sessions may legitimately repeat numbers
+      let oneSession := (tasks.filterMap fun (t : Nat × Option Req) => (h.srv.locate t.1).map fun x => x.1.id).eraseDups.length ≤ 1
+      let viol := if oneSession && dup eids then viol.push ("C10", "entity-id-issued-twice", flatS s!"{" ".intercalate b.ev} :: {eids}") else viol
+      let viol := if oneSession && dup aids then viol.push ("C10", "asset-id-issued-twice", flatS s!"{" ".intercalate b.ev} :: {aids}") else viol
+      { h with blind := true, concViol := viol, concOdd := h.concOdd + 1,
+               vsteps := h.vsteps.push ⟨.conc tasks, b.ds, .ok, b.sessions, b.gauge, []⟩,
+               diff := h.diff <|> none,
+               note := some (flatS s!"event={evNo} no serial order explains {b.ev.take 3}: {why}") }
+where flatS (s : String) : String := s.replace "\n" " "
+
 def finishHist (h : Hist) : IO Unit := do
   match h.diff with
   | none => IO.println s!"R {h.idx} ok events={h.nEvents} deliveries={h.nDeliv}"
   | some d => IO.println s!"R {h.idx} diff {(d.replace "\n" " ")}"
-  for v in Spec.runMonitors h.cfg h.steps.toList ++ Spec.runViews h.cfg h.steps.toList do
+  for v in Spec.runMonitors h.cfg h.steps.toList ++ Spec.runViews h.cfg h.vsteps.toList do
     IO.println s!"M {h.idx} {v.prop} {v.cause} event={v.event} :: {v.detail}"
+  for v in h.concViol do
+    IO.println s!"M {h.idx} {v.1} {v.2.1} event=0 :: {v.2.2}"
+  if h.concBlocks > 0 then IO.println s!"C {h.idx} blocks={h.concBlocks} unserializable={h.concOdd}{match h.note with | some n => " :: " ++ n | none => ""}"
 
 /-- `STAT n l_1 .. l_{n-1} L | min max mean p95 last sig count=.. ids=..`: one completed measurement of the real
     `models.SignedLatency` with preset round latencies (the final round's end time is the wall clock, so its
@@ -242,7 +375,7 @@ partial def loop (stdin : IO.FS.Stream) (h : Option Hist) (b : Block) : IO Unit 
     loop stdin h { b with sessions := ids, gauge }
   | "X" :: rest => loop stdin h { b with extra := b.extra ++ [" ".intercalate rest] }
   | "O" :: rest =>
-    let h := h.map fun h => processBlock h b (parseOutcome rest)
+    let h := h.map fun h => if b.ev.head? == some "conc" then processConc h b rest else processBlock h b (parseOutcome rest)
     loop stdin h {}
   | "STAT" :: rest =>
     match checkStat rest with
